@@ -17,6 +17,30 @@ fn gen_meta(rng: &mut Rng, valid_bias: bool) -> MetaSpec {
     }
 }
 
+/// destination of an outbound message: an initially trusted chain (mostly), any chain, or — one time in
+/// five — the chain whose trust changed most recently or the chain of the previous outbound message, so that
+/// "used, un-trusted, used again" and "same destination twice" histories are frequent
+fn dest_chain(rng: &mut Rng, cfg: &ICfg, ops: &[IOp]) -> u8 {
+    if rng.chance(1, 5) {
+        let recent = ops.iter().rev().find_map(|o| match o {
+            IOp::Trust { chain, .. } => Some(*chain),
+            _ => None,
+        });
+        let prev = ops.iter().rev().find_map(|o| match o {
+            IOp::Send { chain, .. } | IOp::DeployRemote { chain, .. } | IOp::DeployRemoteCanonical { chain, .. } => Some(*chain),
+            _ => None,
+        });
+        if let Some(c) = if rng.chance(1, 2) { recent.or(prev) } else { prev.or(recent) } {
+            return c;
+        }
+    }
+    if !cfg.initial_trusted.is_empty() && rng.chance(2, 3) {
+        *rng.pick(&cfg.initial_trusted)
+    } else {
+        rng.below(CHAINS.len() as u64) as u8
+    }
+}
+
 fn gen_dev(rng: &mut Rng, wire_only: bool) -> Dev {
     let k = if wire_only { rng.range(10, 18) } else { rng.below(20) };
     match k {
@@ -123,7 +147,19 @@ impl World for WorldI {
             let user_fault = |rng: &mut Rng| *rng.pick(&[AuthVar::Counterparty, AuthVar::Owner, AuthVar::Stranger, AuthVar::Nobody, AuthVar::RightOtherArgs, AuthVar::RootOnly]);
             let op = match rng.weighted(&w) {
                 0 => IOp::Trust {
-                    chain: rng.below(CHAINS.len() as u64) as u8,
+                    // half of the time the chain the most recent outbound message (or inbound origin) named, so that
+                    // "used, then un-trusted, then used again" histories are common whatever the size of the pool
+                    chain: {
+                        let recent = ops.iter().rev().find_map(|o| match o {
+                            IOp::Send { chain, .. } | IOp::DeployRemote { chain, .. } | IOp::DeployRemoteCanonical { chain, .. } => Some(*chain),
+                            IOp::Inbound { origin, .. } => Some(*origin),
+                            _ => None,
+                        });
+                        match recent {
+                            Some(c) if rng.chance(1, 2) => c,
+                            _ => rng.below(CHAINS.len() as u64) as u8,
+                        }
+                    },
                     set: rng.chance(3, 5),
                     auth: if fault { *rng.pick(&[AuthVar::Former, AuthVar::OtherRole, AuthVar::Counterparty, AuthVar::Stranger, AuthVar::Nobody, AuthVar::RightOtherArgs]) } else { AuthVar::Right },
                     abort,
@@ -141,7 +177,7 @@ impl World for WorldI {
                 3 => IOp::Send {
                     caller: if rng.chance(1, 20) { 200 } else { rng.below(4) as u8 },
                     tok: if rng.chance(9, 10) { TokRef::Registered(rng.below(6) as u8) } else { TokRef::Unknown(rng.below(3) as u8) },
-                    chain: if !cfg.initial_trusted.is_empty() && rng.chance(2, 3) { *rng.pick(&cfg.initial_trusted) } else { rng.below(CHAINS.len() as u64) as u8 },
+                    chain: dest_chain(rng, &cfg, &ops),
                     dst: rng.below(4) as u8,
                     amount: match rng.weighted(&[1, 1, 8, 2, 2]) { 0 => IAmt::Zero, 1 => IAmt::Neg, 2 => IAmt::Lit(rng.range(1, 500) as i64), 3 => IAmt::Balance, _ => IAmt::BalancePlus1 },
                     data: if rng.chance(1, 3) { Some(rng.below(4) as u8) } else { None },
@@ -159,7 +195,7 @@ impl World for WorldI {
                     IOp::DeployRemote {
                     caller: c,
                     salt: s,
-                    chain: if !cfg.initial_trusted.is_empty() && rng.chance(2, 3) { *rng.pick(&cfg.initial_trusted) } else { rng.below(CHAINS.len() as u64) as u8 },
+                    chain: dest_chain(rng, &cfg, &ops),
                     gas_tok: rng.below(2) as u8,
                     gas: *rng.pick(&[1i64, 1, 10, 0, -1, 1_000_000]),
                     auth: if fault { user_fault(rng) } else if f_auth && rng.chance(1, 6) { AuthVar::Everyone } else { AuthVar::Right },
@@ -170,7 +206,7 @@ impl World for WorldI {
                         let known: Vec<u8> = ops.iter().filter_map(|o| if let IOp::Register { tok, .. } = o { Some(*tok) } else { None }).collect();
                         if !known.is_empty() && rng.chance(3, 4) { *rng.pick(&known) } else { rng.below(8) as u8 }
                     },
-                    chain: if !cfg.initial_trusted.is_empty() && rng.chance(2, 3) { *rng.pick(&cfg.initial_trusted) } else { rng.below(CHAINS.len() as u64) as u8 },
+                    chain: dest_chain(rng, &cfg, &ops),
                     spender: if rng.chance(1, 10) { *rng.pick(&[200u8, 200, 201]) } else { rng.below(4) as u8 },
                     gas_tok: rng.below(2) as u8,
                     gas: *rng.pick(&[1i64, 1, 10, 0, -1, 1_000_000]),
